@@ -101,7 +101,9 @@ class C07(Check):
             "20 binary operators x all assignments of {none,-,+,~,not} to the 3 operand positions; "
             "binary/conditional and conditional/conditional mixes; both parenthesisations of every "
             "pair; postfix forms (call with keyword argument, subscript, attribute) under every "
-            "operator; literal forms; no-whitespace spellings; (thorough) all ordered triples with "
+            "operator; literal forms; 37 identifiers that begin with a keyword or literal spelling, "
+            "differ in case only or carry digits / underscores, in 17 contexts; every ordered pair of "
+            "keyword arguments (argument order is part of the tree); no-whitespace spellings; (thorough) all ordered triples with "
             "at most one prefix operator; token-level mutations (every proper prefix, every "
             "single-token deletion and duplication); importer instance histories: one long-lived "
             "ASTToPymbolic instance imports windows of 60 strings one after the other, every parse "
@@ -127,6 +129,7 @@ class C07(Check):
             ("parens", self.gen_parens),
             ("postfix", self.gen_postfix),
             ("literals", self.gen_literals),
+            ("identifiers", self.gen_identifiers),
             ("nospace", self.gen_nospace),
         ]
         fams.append(("importer-instance", lambda: self.gen_importer_windows(tier)))
@@ -219,6 +222,37 @@ class C07(Check):
 
     LITS = ("2", "10", "007", "2.5", "2.", ".5", "0.5", "1e3", "1E3", "1e-3", "2.5e+2", "1.e2",
             "True", "False", "0", "1j", "2.5j")
+
+    # identifiers that begin with (or contain) a keyword or literal spelling, differ in case only,
+    # carry digits / underscores, or look like an exponent or imaginary suffix
+    NAMES = ("not_done", "or_mask", "and_", "if_", "else_x", "nota", "android", "iffy", "orb",
+             "elsewhere", "not1", "notnot", "x_1", "_x", "__", "x1y", "B", "aB", "Ab", "NaN", "nan",
+             "Truex", "True_", "False1", "inf", "e1", "E3", "j", "e", "x1e3", "if1", "else_",
+             "is_x", "in_", "lambda_", "d_not", "a_or_b")
+
+    def gen_identifiers(self):
+        for n in self.NAMES:
+            yield ("sp", (n,))
+            yield ("sp", ("a", "+", n))
+            yield ("sp", (n, "*", "a"))
+            yield ("sp", ("-", n, "**", "2"))
+            yield ("sp", ("not", n))
+            yield ("sp", ("~", n))
+            yield ("sp", (n, "if", n, "else", "a"))
+            yield ("sp", ("a", "if", "b", "else", n))
+            yield ("sp", ("f", "(", n, ",", "k", "=", n, ")"))
+            yield ("sp", ("f", "(", "a", ",", n, "=", "b", ")"))      # as a keyword name
+            yield ("sp", (n, "(", "a", ")"))
+            yield ("sp", (n, ".", "d"))
+            yield ("sp", ("obj", ".", n))
+            yield ("sp", (n, "[", "0", "]"))
+            yield ("sp", ("a", "<", n, "and", n, "<", "b"))
+            yield ("ns", ("a", "+", n))
+            yield ("ns", (n, "*", "a"))
+        # every ordered pair of keyword arguments (their order is part of the call)
+        for k1, k2 in itertools.permutations(("k", "j", "a", "z_"), 2):
+            yield ("sp", ("f", "(", k1, "=", "a", ",", k2, "=", "b", ")"))
+            yield ("sp", ("f", "(", "c", ",", k1, "=", "g", "(", "a", ")", ",", k2, "=", "b", ")"))
 
     def gen_literals(self):
         for lit in self.LITS:
